@@ -24,3 +24,7 @@ for d in sorted(glob.glob("/verif/seeded/S*")):
     finally:
         sh("git -C /repo checkout -- .")
 print("not caught with a failing input:", bad)
+
+# leave the translator-generated cfg model in the state of the unchanged tree
+import subprocess as _sp
+_sp.run(["python3", "/verif/tools/cfg_translate.py", "/repo"], stdout=_sp.DEVNULL)
